@@ -1,4 +1,5 @@
 import LopdfModel.Lemmas.Edit
+import LopdfModel.Lemmas.EditLen
 /-
   C11 — property theorems (editing operations keep the document sound).
   * `WF`, `wf_step`, `wf_run`: allocation invariant (max_id >= every object number) and BTreeMap
@@ -79,6 +80,8 @@ theorem wf_step (d : Doc) (op : Op) (h : WF d) (d' : Doc) (out : Out)
     have := wf_addGraphicsState d p n x h; rw [e] at this; exact this
   | changeStream sid c f => simp only [step] at hs; cases hs; exact wf_changeContentStream _ d sid c h
   | changePage p c f => simp only [step] at hs; exact wf_changePageContent _ d p c h d' out hs
+  | compress f => simp only [step] at hs; cases hs; exact wf_of_keys_eq d _ h (docCompress_keys _ _ _)
+  | decompress e => simp only [step] at hs; cases hs; exact wf_of_keys_eq d _ h (docDecompress_keys _ _)
 
 /-- **C11, invariant over arbitrary programs.** For every finite list of modelled editing calls (any
 operations, any arguments, any length) that runs to completion, well-formedness — in particular
@@ -191,28 +194,27 @@ theorem frame_set (d d' : Doc) (id : ObjId) (o : Obj) (out : Out) (h : step d (.
   refine ⟨rfl, ?_⟩
   intro k hk; simp [Objects.get_insert, Ne.symm hk]
 
-/-- `delete_object`: the object is gone, every unvisited object is untouched, every visited one is
-rewritten once by the action (which strips the first array occurrence and direct dictionary entries only) -/
+/-- `delete_object` (since the fix of F-C11-a): the object is gone, direct trailer entries pointing at it are
+removed, every unvisited object is untouched, every visited one is rewritten once by the action — which
+strips EVERY array occurrence and the direct entries of plain and stream dictionaries -/
 theorem delete_effect (d : Doc) (id : ObjId) :
     (deleteObject d id).1.objects.get id = none ∧
-    (deleteObject d id).1.trailer = deepDict (delAct id) d.trailer ∧
+    (deleteObject d id).1.trailer = deepDict (delAct id) (stripDict id d.trailer) ∧
     ∀ k, k ≠ id → (deleteObject d id).1.objects.get k =
-      if k ∈ (traverse (delAct id) d.trailer d.objects).2.2 then (d.objects.get k).map (deepObj (delAct id))
+      if k ∈ (traverse (delAct id) (stripDict id d.trailer) d.objects).2.2 then (d.objects.get k).map (deepObj (delAct id))
       else d.objects.get k := by
-  have hv := traverse_visits_once (delAct id) d.trailer d.objects
+  have hv := traverse_visits_once (delAct id) (stripDict id d.trailer) d.objects
   refine ⟨by simp [deleteObject, Objects.get_remove], hv.1, ?_⟩
   intro k hk
   simp only [deleteObject, Objects.get_remove, Ne.symm hk, if_false]
   exact hv.2.2 k
 
-/-- **F-C11-a (counter-witness).** A reference held directly in the trailer survives `delete_object`:
-the action is applied to the trailer's *values*, and a bare reference is neither an array nor a dictionary. -/
-theorem delete_leaves_trailer_ref_witness (os : Objects) :
-    (deleteObject ⟨[([73], .ref 5 0)], os, 9, [], []⟩ (5, 0)).1.trailer = [([73], .ref 5 0)] := by
+/-- (F-C11-a, trailer position, fixed) a reference held directly in the trailer is removed by `delete_object` -/
+theorem delete_strips_trailer_example (os : Objects) :
+    (deleteObject ⟨[([73], .ref 5 0)], os, 9, [], []⟩ (5, 0)).1.trailer = [] := by
   rw [(delete_effect _ _).2.1]
-  rw [deepDict, deepObj_other] <;> simp [delAct, delFn, deepDict]
-
-
+  have : stripDict (5, 0) [([73], Obj.ref 5 0)] = [] := by decide
+  rw [this, deepDict]
 
 /-! ### resources and content -/
 
@@ -324,9 +326,8 @@ theorem addXObject_monotone_partial (d : Doc) (pg : ObjId) (name : Bytes) (xid :
       rw [(withEntry_monotone _ [] kXObject name _).1 c hc, Dict.get_set_c11]; simp [Ne.symm hc]
     · intro sd h0; rw [hnone] at h0; cases h0
 
-/-- **F-C11-e (counter-witness).** Page 2 has no own `Resources` and inherits `/Font /F1` from its parent 3.
-`add_xobject` gives the page an own `Resources` whose only key is `XObject`: the dictionary in effect for
-the page (the nearest one up the Parent chain) no longer contains `Font`. -/
+/-- (F-C11-e fixed) Page 2 has no own `Resources` and inherits `/Font /F1` from its parent 3: `add_xobject`
+gives the page an own `Resources` that starts as a copy of the inherited one, so `Font` stays in effect. -/
 def wres : Doc :=
   { trailer := [], maxId := 5, bookmarks := [], bmTable := [],
     objects := [((2,0), .dict [(TYPE, .name PAGE), (PARENT, .ref 3 0)]),
@@ -334,10 +335,10 @@ def wres : Doc :=
                                (kResources, .dict [([70,111,110,116], .dict [([70,49], .ref 5 0)])])]),
                 ((5,0), .dict [])] }
 
-theorem inherited_shadowed_witness :
+theorem inherited_kept_example :
     ((wres.objects.get (2,0)).bind Obj.asDict).bind (fun pd => Dict.get pd kResources) = none ∧
     ((((addXObject wres (2,0) [73,109,49] (5,0)).1.objects.get (2,0)).bind Obj.asDict).bind
-        (fun pd => (Dict.get pd kResources).bind Obj.asDict)).map Dict.keys = some [kXObject] := by
+        (fun pd => (Dict.get pd kResources).bind Obj.asDict)).map Dict.keys = some [[70,111,110,116], kXObject] := by
   constructor <;> decide
 
 /-- decoding of a stream as `get_page_content` needs it here: no filter, or FlateDecode through the codec -/
@@ -380,3 +381,148 @@ example : Dict.get (Dict.remove (Dict.remove [(kFilter, .name [65]), (LENGTHE, .
   decide
 
 end Lopdf
+
+namespace Lopdf.Ed
+open Lopdf
+
+/-! ### stream `Length` consistency; `compress` / `decompress` frame -/
+
+/-- the stream objects a caller hands to `add_object` / `set_object` must themselves be consistent -/
+def opLenGuard : Op → Prop
+  | .add o => LenOK o
+  | .set _ o => LenOK o
+  | _ => True
+
+/-- **C11, stream `Length` consistency, one step**: every modelled call keeps "each stream's `Length` is the
+length of its stored content" — the calls that set content (add_page_contents, change_content_stream,
+change_page_content, compress, decompress) establish it for the streams they write. -/
+theorem len_step (d : Doc) (op : Op) (h : LenInv d) (hg : opLenGuard op) (d' : Doc) (out : Out)
+    (hs : step d op = .ok (d', out)) : LenInv d' := by
+  cases op with
+  | newId => simp only [step] at hs; split at hs <;> cases hs; exact h
+  | add o => simp only [step] at hs; split at hs <;> cases hs; exact lenInv_addObject d o h hg
+  | set id o => simp only [step] at hs; cases hs; exact valsOK_insert _ _ _ h hg
+  | del id => simp only [step] at hs; cases hs; exact lenInv_deleteObject d id h
+  | prune =>
+    simp only [step] at hs; cases hs
+    exact valsOK_foldl_remove _ _ (lenInv_traverse _ tame_id _ _ h)
+  | delZero => simp only [step] at hs; cases hs; exact lenInv_foldl_delete _ d h
+  | renumber s =>
+    simp only [step] at hs
+    split at hs
+    · rename_i d2 hr; cases hs; exact lenInv_densePass (pagePass d) s (lenInv_pagePass d h) _ hr
+    · cases hs
+    · cases hs
+  | delPages n =>
+    simp only [step] at hs
+    split at hs
+    · rename_i d2 hr; cases hs; exact lenInv_deletePages d n h _ hr
+    · cases hs
+  | addContent p c => simp only [step] at hs; exact lenInv_addPageContents d p c h d' out hs
+  | removeAnnot id =>
+    simp only [step] at hs; have e := Outcome.ok.inj hs
+    have := lenInv_removeAnnot id (pageIter d.trailer d.objects) d h; rw [e] at this; exact this
+  | addXObject p n x =>
+    simp only [step] at hs; have e := Outcome.ok.inj hs
+    have := lenInv_addXObject d p n x h; rw [e] at this; exact this
+  | addGState p n x =>
+    simp only [step] at hs; have e := Outcome.ok.inj hs
+    have := lenInv_addGraphicsState d p n x h; rw [e] at this; exact this
+  | changeStream sid c f => simp only [step] at hs; cases hs; exact lenInv_changeContentStream _ d sid c h
+  | changePage p c f => simp only [step] at hs; exact lenInv_changePageContent _ d p c h d' out hs
+  | compress f =>
+    simp only [step] at hs; cases hs
+    intro k o hk
+    simp only at hk; rw [docCompress_get] at hk
+    cases hos : d.objects.get k with
+    | none => rw [hos] at hk; cases hk
+    | some o0 => rw [hos] at hk; simp at hk; subst hk; exact lenOK_compressObj _ _ _ _ (h k o0 hos)
+  | decompress e =>
+    simp only [step] at hs; cases hs
+    intro k o hk
+    simp only at hk; rw [docDecompress_get] at hk
+    cases hos : d.objects.get k with
+    | none => rw [hos] at hk; cases hk
+    | some o0 => rw [hos] at hk; simp at hk; subst hk; exact lenOK_decompressObj _ _ (h k o0 hos)
+
+/-- guarded programs: every `add_object` / `set_object` argument is `Length`-consistent -/
+def lenGuards : List Op → Prop
+  | [] => True
+  | op :: rest => opLenGuard op ∧ lenGuards rest
+
+/-- **C11, `Length` consistency over arbitrary programs** -/
+theorem len_run (ops : List Op) (d : Doc) (h : LenInv d) (hg : lenGuards ops) (d' : Doc)
+    (hr : runOps d ops = .ok d') : LenInv d' := by
+  induction ops generalizing d with
+  | nil => simp [runOps] at hr; subst hr; exact h
+  | cons op rest ih =>
+    simp only [runOps] at hr
+    split at hr
+    · rename_i d1 out hs; exact ih d1 (len_step d op h hg.1 d1 out hs) hg.2 hr
+    · cases hr
+    · cases hr
+
+example : LenOK (.stream [(LENGTHE, .int 3)] [1, 2, 3]) := by simp [LenOK, Dict.get, DictL.NoDup]
+
+/-- **frame of `Document::compress` / `Document::decompress`**: trailer, `max_id` and the key set are
+untouched; every object that is not a stream is returned as it was; a stream is replaced by its
+(de)compressed form as C09's `compress` / `decompress` describe it. -/
+theorem compress_frame (d : Doc) (f : Bytes → Bytes) (d' : Doc) (out : Out) (hs : step d (.compress f) = .ok (d', out)) :
+    d'.trailer = d.trailer ∧ d'.maxId = d.maxId ∧ d'.objects.keys = d.objects.keys ∧
+    ∀ k, d'.objects.get k = (d.objects.get k).map (compressObj f (fun _ => true) k) := by
+  simp only [step] at hs; cases hs
+  exact ⟨rfl, rfl, by simpa using docCompress_keys f (fun _ => true) d.objects, fun k => by simpa using docCompress_get f (fun _ => true) d.objects k⟩
+
+theorem decompress_frame (d : Doc) (e : Ext) (d' : Doc) (out : Out) (hs : step d (.decompress e) = .ok (d', out)) :
+    d'.trailer = d.trailer ∧ d'.maxId = d.maxId ∧ d'.objects.keys = d.objects.keys ∧
+    ∀ k, d'.objects.get k = (d.objects.get k).map (decompressObj e) := by
+  simp only [step] at hs; cases hs
+  exact ⟨rfl, rfl, by simpa using docDecompress_keys e d.objects, fun k => by simpa using docDecompress_get e d.objects k⟩
+
+/-! ### resources: the reference case -/
+
+/-- the object a resource location lives in -/
+def locObj : ResLoc → ObjId
+  | .obj id => id
+  | .entry t => t
+
+theorem readLoc_set_other (os : Objects) (loc : ResLoc) (t : ObjId) (v : Obj) (h : locObj loc ≠ t) :
+    readLoc (os.set t v) loc = readLoc os loc := by
+  cases loc with
+  | obj id => simp only [readLoc, Objects.get_set]; simp [locObj] at h; simp [Ne.symm h]
+  | entry p => simp only [readLoc, Objects.get_set]; simp [locObj] at h; simp [Ne.symm h]
+
+/-- **C11, resources_monotone for `add_xobject` when the `XObject` entry is a REFERENCE** (the case the
+guard of `addXObject_monotone_partial` excludes): the sub-dictionary lives in another object `t`; if that
+object is not the one holding the resource dictionary itself (no aliasing), the resource dictionary is
+returned exactly as it was, and in the sub-dictionary every name other than the new one is unchanged. -/
+theorem addXObject_ref_monotone_partial (d : Doc) (pg : ObjId) (name : Bytes) (xid : ObjId) (d1 : Doc) (loc : ResLoc)
+    (res : Dict) (n g : Nat) (t : ObjId) (xd : Dict)
+    (hg : getOrCreateResources d pg = some (d1, loc)) (hr : readLoc d1.objects loc = some (.dict res))
+    (hx : Dict.get res kXObject = some (.ref n g)) (ht : objectMutId d1.objects (n, g) = some t)
+    (hxd : d1.objects.get t = some (.dict xd)) (hna : locObj loc ≠ t) :
+    readLoc (addXObject d pg name xid).1.objects loc = some (.dict res) ∧
+    ∃ xd', (addXObject d pg name xid).1.objects.get t = some (.dict xd') ∧
+      Dict.get xd' name = some (.ref xid.1 xid.2) ∧ ∀ m, m ≠ name → Dict.get xd' m = Dict.get xd m := by
+  have hh : Dict.has res kXObject = true := by simp [Dict.has, hx]
+  unfold addXObject
+  simp only [hg, hr, hh, if_true, hx, ht, hxd]
+  refine ⟨by rw [readLoc_set_other _ _ _ _ hna]; exact hr, Dict.set xd name (.ref xid.1 xid.2), by simp [Objects.get_set, hxd], ?_, ?_⟩
+  · simp [Dict.get_set_c11]
+  · intro m hm; simp [Dict.get_set_c11, Ne.symm hm]
+
+/-- without the no-aliasing hypothesis the statement is false: a resource dictionary (object 7) whose
+`XObject` entry refers back to itself loses its `Font` category when an XObject NAMED `Font` is added -/
+def walias : Doc :=
+  { trailer := [], maxId := 7, bookmarks := [], bmTable := [],
+    objects := [((2,0), .dict [(TYPE, .name PAGE), (kResources, .ref 7 0)]),
+                ((7,0), .dict [([70,111,110,116], .dict [([70,49], .ref 5 0)]), (kXObject, .ref 7 0)])] }
+
+theorem xobject_alias_witness :
+    (((walias.objects.get (7,0)).bind Obj.asDict).bind (fun r => Dict.get r [70,111,110,116])).bind Obj.asDict ≠ none ∧
+    ((((addXObject walias (2,0) [70,111,110,116] (5,0)).1.objects.get (7,0)).bind Obj.asDict).bind
+        (fun r => Dict.get r [70,111,110,116])).bind Obj.asDict = none := by
+  constructor <;> decide
+
+
+end Lopdf.Ed
